@@ -7,7 +7,7 @@ wt=$(mktemp -d /tmp/seedrepo_XXXXXX)
 rmdir "$wt"
 git -C /repo worktree add --detach "$wt" HEAD >/dev/null 2>&1 || { echo "cannot create worktree"; exit 2; }
 ( cd "$wt" && git apply "$patch" ) || { echo "patch does not apply"; git -C /repo worktree remove --force "$wt"; exit 2; }
-cd /verif
+cd "$(dirname "$0")/.." || exit 2
 for p in "$@"; do
   VERIF_REPO="$wt" ./check "$p" "$tier" > /tmp/try_seed_$p.log 2>&1; rc=$?
   echo "== $p $tier rc=$rc"; grep -c "^VIOLATION" /tmp/try_seed_$p.log; grep "^VIOLATION\|^  site\|^INFRA\|^KNOWN" /tmp/try_seed_$p.log | cut -c1-260 | head -8
